@@ -981,6 +981,86 @@ def table_index_rule(rep, fn):
     return n
 
 
+def index_minus_rule(rep, fn):
+    """R-INDEX (lower end): `a[v - c]` with an unsigned variable v and a constant c >= 1: when v < c the index wraps to a huge
+    value (a read before the array).  Some branch that dominates the access excludes v == 0 .. c - 1 (a test of v against
+    zero / a relational test of v), or v was assigned a value >= c right before."""
+    from rules import r_range
+    n = 0
+    for pos, root, x, ps in fn.nodes():
+        if x.get("k") != "sub":
+            continue
+        i = core.strip_casts(x["i"])
+        if not (i.get("k") == "bin" and i.get("op") == "-" and const_val(i["y"]) is not None and const_val(i["y"]) >= 1):
+            continue
+        v = core.strip_casts(i["x"])
+        if v.get("k") != "ref" or "t" not in v:
+            continue
+        t = fn.unit.type(v["t"])
+        if t["k"] != "int" or t.get("sg"):
+            continue
+        n += 1
+        inst = "index-minus:%s[%s-%d]#%d" % (key(core.strip_casts(x["b"]))[:24], v["n"], const_val(i["y"]), n)
+        desc = "%s: %s is not zero where %s[%s - %d] is accessed" % (fn.name, v["n"], key(core.strip_casts(x["b"]))[:24], v["n"], const_val(i["y"]))
+        ok, why = r_range.excludes_zero(fn, pos, v)
+        if not ok:
+            # a relational test of v that dominates (v > k, k < v, v >= 1 ...)
+            for bid in fn.reachable_blocks():
+                c = fn.blocks[bid].cond
+                if c is None or bid == pos[0] or not fn.dominates(bid, pos[0]):
+                    continue
+                for y, _ in walk(c):
+                    if y.get("k") == "bin" and y["op"] in ("<", ">", "<=", ">=") and v["id"] in core.ref_ids(y):
+                        ok, why = True, "relational test at line %s" % c.get("ln")
+        if ok:
+            rep.proved("R-INDEX", fn, inst, desc, why, x.get("ln"))
+        else:
+            rep.violated("R-INDEX", fn, inst, desc, "no dominating test excludes %s == 0: the index wraps and the element before the array is accessed" % v["n"], x.get("ln"))
+    return n
+
+
+def counted_array_rule(rep, fn):
+    """R-INDEX (counted parameter arrays): a pointer parameter A that comes with a parameter A_count (A_cnt holds the element
+    *sizes* in this code base, A_count the number of elements) and is subscripted with a variable: a relational test of that
+    variable against A_count dominates the access, or the variable is the induction variable of a loop bounded by A_count."""
+    n = 0
+    pnames = {p["n"]: p for p in fn.params}
+    for pos, root, x, ps in fn.nodes():
+        if x.get("k") != "sub":
+            continue
+        b = core.strip_casts(x["b"])
+        if b.get("k") != "ref" or b.get("dk") != "parm":
+            continue
+        cnt = None
+        for suf in ("_count",):
+            if b["n"] + suf in pnames:
+                cnt = b["n"] + suf
+        if cnt is None:
+            # sibling arrays sharing one count: tag_arr / tag_arr_cnt / ret_ns... -> <stem>_count of the first array parameter
+            for pn in pnames:
+                if pn.endswith("_count") and b["n"].startswith(pn[:-6]):
+                    cnt = pn
+        if cnt is None:
+            continue
+        i = core.strip_casts(x["i"])
+        if i.get("k") != "ref":
+            continue
+        n += 1
+        inst = "counted-array:%s[%s]#%d" % (b["n"], i["n"], n)
+        desc = "%s: %s < %s where %s[%s] is accessed" % (fn.name, i["n"], cnt, b["n"], i["n"])
+        ok = False
+        for bid in fn.reachable_blocks():
+            c = fn.blocks[bid].cond
+            if c is None or not fn.dominates(bid, pos[0]):
+                continue
+            for y, _ in walk(c):
+                if y.get("k") == "bin" and y["op"] in ("<", ">", "<=", ">=") and i["id"] in core.ref_ids(y) and                         any(r.get("k") == "ref" and r.get("n") == cnt for r, _ in walk(y)):
+                    ok = True
+        (rep.proved if ok else rep.violated)("R-INDEX", fn, inst, desc, "" if ok else "no dominating comparison of '%s' with '%s': when every requested element "
+                                             "has been matched the index equals the count" % (i["n"], cnt), x.get("ln"))
+    return n
+
+
 def stale_remaining_rule(rep, fn):
     """`left = end - cur` ties a remaining-size variable to a cursor.  Wherever the cursor is given a new value afterwards
     (assignment, or its address handed to a callee), the same block also updates `left` - otherwise the loop that follows
@@ -1087,6 +1167,8 @@ def all_lints(rep, fn):
     guard_agree_rule(rep, fn)
     terminator_rule(rep, fn)
     table_index_rule(rep, fn)
+    index_minus_rule(rep, fn)
+    counted_array_rule(rep, fn)
 
 
 def run_scope(rep, tier, us, exclude=(), only=None, budget_quick=45, extra_rules=()):
